@@ -197,7 +197,7 @@ class PercentEncoder(collections.defaultdict):
 
         if ((self.unix and char == b'/')
                 or (self.control and
-                    (0 <= char_num <= 31 or
+                    (0 <= char_num <= 31 or char_num == 127 or
                      self.ascii and 128 <= char_num <= 159))
                 or (self.windows and char in br'\|/:?"*<>')
                 or (self.ascii and char_num > 127)):
@@ -257,6 +257,18 @@ def safe_filename(filename, os_type='unix', no_control=True, ascii_only=True,
             )
 
         encoder = _encoder_cache[encoder_args]
+
+        if no_control:
+            # The C1 control characters (U+0080 to U+009F) are not single
+            # bytes in most encodings: escape them as characters.
+            filename = re.sub(
+                '[\x80-\x9f]',
+                lambda match: ''.join(
+                    '%{:02X}'.format(byte)
+                    for byte in match.group().encode(encoding)),
+                filename
+            )
+
         encoded_filename = filename.encode(encoding)
         new_filename = encoder.quote(encoded_filename).decode(encoding)
 
